@@ -14,6 +14,12 @@
 //          <ret>@<order in which the loader handed the messages out>@<dump | '=' when equal to the group's first>
 //   macro <k> <expected name hex> <expected metadata hex>
 //       -> name=<hex> meta=<hex> of the k-th port of the macro-made application (tree "static")
+//   hist <tree> <flat> <ops>!<ops>.. <apro> <mops>!.. <addresses>!..
+//       ONE instance A; per segment: its ops dispatched into A, then get_changed_values(A) twice,
+//       save_to_file(A) judged as in `save` (loaded into a fresh B), get_default_value(A) asked directly
+//       for every address of the segment's list (forwards, then backwards)
+//     -> per segment (" ## "): the fields of `save` + cv=<scanned lines of get_changed_values>
+//          cv2=<1 when the second call gave the same text> dv=<address hex>:<text hex | N>,...
 //   rej <tree> <flat> <file hex> <appname> <abstract file>
 //       the given text loaded into a fresh instance
 //     -> ret=<n> B=<dump>
@@ -70,6 +76,51 @@ static std::string join(const std::vector<std::string> &v, const char *sep)
     return s.empty() ? "-" : s;
 }
 
+// one saved file judged: the text loaded into a fresh instance B, a fresh instance's own file,
+// the scanned lines and the bytes of the body
+template<class R> static void save_record(R &A, const std::string &text, std::ostringstream &out)
+{
+    std::string hdr, body;
+    split_header(text, hdr, body);
+    std::unique_ptr<R> B(new R());
+    ExactBuf tb(std::vector<uint8_t>(text.c_str(), text.c_str() + text.size() + 1));
+    int ret = load_from_file((const char*)tb.p, R::ports, B.get(), APP, APPVER, nullptr);
+    std::unique_ptr<R> C(new R());
+    std::set<std::string> w2;
+    std::string t2 = save_to_file(R::ports, C.get(), APP, APPVER, w2, {});
+    std::string h2, b2;
+    split_header(t2, h2, b2);
+    out << "hdr=" << (header_ok(hdr) ? 1 : 0) << " lines=" << scan_lines(body.c_str())
+        << " ret=" << ret << " A=" << dump_root(A) << " B=" << dump_root(*B)
+        << " fresh=" << (header_ok(h2) ? "" : "BADHDR") << scan_lines(b2.c_str());
+    // the text of the body, line by line (sorted, hex): compared with the printer's model
+    auto bl = body_lines(body);
+    std::vector<std::string> hx;
+    for(auto &l : bl) hx.push_back(hex(l.data(), l.size()));
+    std::sort(hx.begin(), hx.end());
+    out << " body=" << join(hx, "|") << " cls=- cond=-";
+}
+
+// get_default_value() asked directly for the given addresses (hex, ','-separated) on the instance,
+// forwards and then backwards:  <address hex>:<hex of the text | N>,...  ("!AGAIN" behind an entry
+// whose second answer differs from the first)
+template<class R> static std::string ask_defaults(R &A, const std::string &addrs)
+{
+    if(addrs == "-" || addrs.empty()) return "-";
+    std::vector<std::string> as, first, out;
+    for(auto &h : split(addrs, ',')) { auto b = unhex(h); as.push_back(std::string(b.begin(), b.end())); }
+    auto ask = [&](const std::string &a) {
+        const char *d = get_default_value(a.c_str(), R::ports, &A);
+        return d ? hex(d, strlen(d)) : std::string("N");
+    };
+    for(auto &a : as) first.push_back(ask(a));
+    for(size_t i = as.size(); i-- > 0; ) {
+        std::string again = ask(as[i]);
+        out.insert(out.begin(), hex(as[i].data(), as[i].size()) + ":" + first[i] + (again == first[i] ? "" : "!AGAIN"));
+    }
+    return join(out, ",");
+}
+
 template<class R> static bool run_case(const std::vector<std::string> &f, std::ostringstream &out)
 {
     if(f[0] == "save" || f[0] == "perm") {
@@ -81,23 +132,7 @@ template<class R> static bool run_case(const std::vector<std::string> &f, std::o
         std::string hdr, body;
         split_header(text, hdr, body);
         if(f[0] == "save") {
-            std::unique_ptr<R> B(new R());
-            ExactBuf tb(std::vector<uint8_t>(text.c_str(), text.c_str() + text.size() + 1));
-            int ret = load_from_file((const char*)tb.p, R::ports, B.get(), APP, APPVER, nullptr);
-            std::unique_ptr<R> C(new R());
-            std::set<std::string> w2;
-            std::string t2 = save_to_file(R::ports, C.get(), APP, APPVER, w2, {});
-            std::string h2, b2;
-            split_header(t2, h2, b2);
-            out << "hdr=" << (header_ok(hdr) ? 1 : 0) << " lines=" << scan_lines(body.c_str())
-                << " ret=" << ret << " A=" << dump_root(*A) << " B=" << dump_root(*B)
-                << " fresh=" << (header_ok(h2) ? "" : "BADHDR") << scan_lines(b2.c_str());
-            // the text of the body, line by line (sorted, hex): compared with the printer's model
-            auto bl = body_lines(body);
-            std::vector<std::string> hx;
-            for(auto &l : bl) hx.push_back(hex(l.data(), l.size()));
-            std::sort(hx.begin(), hx.end());
-            out << " body=" << join(hx, "|") << " cls=- cond=-";
+            save_record<R>(*A, text, out);
         } else {
             if(f.size() < 5) return false;
             auto ls = body_lines(body);
@@ -131,6 +166,28 @@ template<class R> static bool run_case(const std::vector<std::string> &f, std::o
                     firstp = false;
                 }
             }
+        }
+        return true;
+    }
+    if(f[0] == "hist") {
+        // hist <tree> <flat> <ops>!<ops>!.. <apro> <mops>!.. <addresses>!..
+        //   ONE instance: the ops of a segment, then get_changed_values (twice), save_to_file (judged as in
+        //   `save`), get_default_value for the segment's addresses; the next segment goes on from there
+        if(f.size() < 7) return false;
+        std::unique_ptr<R> A(new R());
+        auto segs = split(f[3], '!');
+        auto asks = split(f[6], '!');
+        for(size_t k = 0; k < segs.size(); ++k) {
+            if(segs[k] != "-")
+                for(auto &op : split(segs[k], ';')) send_op(*A, op);
+            if(k) out << " ## ";
+            std::set<std::string> w0, w1, written;
+            std::string c0 = get_changed_values(R::ports, A.get(), w0, {});
+            std::string c1 = get_changed_values(R::ports, A.get(), w1, {});
+            std::string text = save_to_file(R::ports, A.get(), APP, APPVER, written, {});
+            save_record<R>(*A, text, out);
+            out << " cv=" << scan_lines(c0.c_str()) << " cv2=" << (c0 == c1 ? 1 : 0)
+                << " dv=" << ask_defaults<R>(*A, k < asks.size() ? asks[k] : std::string("-"));
         }
         return true;
     }
